@@ -377,7 +377,39 @@ static std::string handle_tr(const std::vector<std::string> &toks)
             }
             // the name lives in an exact-size block that is released right after the call
             std::unique_ptr<vh::Exact> nm(new vh::Exact(op.name));
-            auto sp = tracer->StartSpan(nostd::string_view(nm->data(), nm->size()), opts);
+            // the overloads of the API header that take attributes and / or links funnel into the same virtual call: which
+            // one is used rotates with the number of spans started so far - parent, kind and times must get through all
+            nostd::string_view nsv(nm->data(), nm->size());
+            nostd::shared_ptr<trace_api::Span> sp;
+            switch (spans.size() % 5)
+            {
+              case 1:
+              {
+                std::map<std::string, int64_t> none;
+                opentelemetry::common::KeyValueIterableView<std::map<std::string, int64_t>> kv(none);
+                sp = tracer->StartSpan(nsv, static_cast<const opentelemetry::common::KeyValueIterable &>(kv), opts);
+                break;
+              }
+              case 2:
+              {
+                std::vector<std::pair<nostd::string_view, opentelemetry::common::AttributeValue>> none;
+                sp = tracer->StartSpan(nsv, none, opts);
+                break;
+              }
+              case 3:
+                sp = tracer->StartSpan(nsv, {}, opts);
+                break;
+              case 4:
+              {
+                std::vector<std::pair<nostd::string_view, opentelemetry::common::AttributeValue>> none;
+                std::vector<std::pair<trace_api::SpanContext, std::vector<std::pair<nostd::string_view, opentelemetry::common::AttributeValue>>>> nolinks;
+                sp = tracer->StartSpan(nsv, none, nolinks, opts);
+                break;
+              }
+              default:
+                sp = tracer->StartSpan(nsv, opts);
+                break;
+            }
             nm.reset();
             spans.push_back(sp);
             ended.push_back(false);
